@@ -456,3 +456,7 @@ def run(ctx):
     rule_auxv(ctx)
     rule_dso(ctx)
     rule_sysinfo(ctx)
+    # the architecture is named also when the CPU details cannot be gathered: it is stored before anything in that step can fail and
+    # the record the step filled is the one written (same rule instance as C11/partial-results-kept)
+    from rules import c11
+    c11.rule_partial_results_kept(ctx, R="C18/arch-always-named")
